@@ -130,31 +130,14 @@ class RegionGeom:
             + 0.5 * b * u4
         )
 
-        psi = np.arccos(r / np.sqrt(-(q**3)))
-        v1 = 2 * np.sqrt(-q) * np.cos(psi / 3)
-        v2 = 2 * np.sqrt(-q) * np.cos((psi + 2 * np.pi) / 3)
+        # r / sqrt(-q^3) = cos(3 theta) lies in [-1, 1]; rounding at the faces u4 = 0, 1 may push it
+        # outside by an ulp, so clip it instead of switching to the one-real-root formula.
+        psi = np.arccos(np.clip(r / np.sqrt(-(q**3)), -1.0, 1.0))
+
+        # Of the three real roots 2 sqrt(-q) cos((psi + 2 pi k) / 3) only k = 2 lies in
+        # [-sqrt(-q), sqrt(-q)], i.e. can be a line-of-sight length below the horizon distance.
         v3 = 2 * np.sqrt(-q) * np.cos((psi + 4 * np.pi) / 3)
-
-        dscr = q * q * q + r * r
-
-        dmsk = dscr <= 0
-        v1_msk = (v1 > 0) & (v1 >= self.minLOSpathLen) & (v1 <= self.maxLOSpathLen)
-        v2_msk = (v2 > 0) & (v2 >= self.minLOSpathLen) & (v2 <= self.maxLOSpathLen)
-        v3_msk = (v3 > 0) & (v3 >= self.minLOSpathLen) & (v3 <= self.maxLOSpathLen)
-
-        self.losPathLen = np.zeros_like(v1)
-        self.losPathLen[dmsk & v1_msk] = v1[dmsk & v1_msk]
-        self.losPathLen[dmsk & v2_msk] = v2[dmsk & v2_msk]
-        self.losPathLen[dmsk & v3_msk] = v3[dmsk & v3_msk]
-
-        s = np.cbrt(r[~dmsk] + np.sqrt(dscr[~dmsk]))
-        t = np.cbrt(r[~dmsk] - np.sqrt(dscr[~dmsk]))
-        self.losPathLen[~dmsk] = s + t
-
-        # self.losPathLen[~dmsk] = np.sum(
-        #     np.cbrt(r[~dmsk] + np.multiply.outer([1, -1], np.sqrt(dscr[~dmsk]))),
-        #     axis=0,
-        # )
+        self.losPathLen = np.clip(v3, self.minLOSpathLen, self.maxLOSpathLen)
 
         rvsqrd = self.losPathLen * self.losPathLen
         costhetaS = (self.core_alt**2 + self.earth_rad_2 - rvsqrd) / (
